@@ -54,6 +54,7 @@ PROBES = [
     "fault_pool_memerror_fired",
     "fs_errno_fired",
     "fs_errno_in_writer_process",
+    "writer_process_killed",
     "control_fault_free",
 ]
 REAL_VS_STUB = dict(
@@ -154,6 +155,13 @@ def gen_cases(tier: str, verif_seed: int, runs: int | None = None) -> list[dict]
                 for k in (0, 3, 7):
                     p = prng()
                     cases.append(_base(p, w, fault=dict(kind="pool_memerror", k=k)))
+            # --- the writer process is killed by a signal (e.g. OOM killer) at its k-th step
+            if w > 1:
+                for k in (0, 2, 5, 11):
+                    p = prng()
+                    cases.append(_base(p, w, fault=dict(kind="writer_killed", k=k)))
+                    p = prng()
+                    cases.append(_base(p, w, prior="catalog", overwrite=True, fault=dict(kind="writer_killed", k=k)))
             # --- errno at every mutating fs event
             for en in ("ENOSPC", "EACCES", "EIO", "EROFS"):
                 p = prng()
@@ -239,7 +247,7 @@ def _location(case: dict, o: dict) -> str:
         return "reader"
     if kind == "pool_memerror":
         return "worker"
-    if kind in ("exists_no_overwrite", "overwrite_not_a_cache", "unusable_location"):
+    if kind in ("exists_no_overwrite", "overwrite_not_a_cache", "unusable_location", "writer_killed"):
         return "writer"
     if kind == "fs_errno":
         return o.get("fs_fault_task", "-")
@@ -276,6 +284,8 @@ def evaluate(case: dict, o: dict) -> tuple[dict | None, str | None]:
         fired = bool(o["fault_fired"])
     if kind == "pool_memerror":
         fired = o["probes"].get("fault_pool_memerror_fired", 0) > 0
+    if kind == "writer_killed":
+        fired = bool(o["fault_fired"].get("kill_task"))
     if kind == "nonfinite" and fault["column"] not in o["records"]:
         fired = False
     expect_raise = kind is not None and fired
@@ -343,7 +353,7 @@ def evaluate(case: dict, o: dict) -> tuple[dict | None, str | None]:
         elif opened:
             # accepted only if it holds exactly the complete new input
             ok = False
-            if kind in ("fs_errno", "pool_memerror"):
+            if kind in ("fs_errno", "pool_memerror", "writer_killed"):
                 try:
                     cache = orc.read_cache(target)
                     cols, parts, amb = orc.expected_partition(
@@ -528,6 +538,8 @@ def run_case(case: dict) -> dict:
                     faults[kind] = faults.get(kind, 0) + 1
                     if "pos" in f:
                         probes[f"fault_in_{f['pos']}_chunk"] = probes.get(f"fault_in_{f['pos']}_chunk", 0) + 1
+                    if kind == "writer_killed":
+                        probes["writer_process_killed"] = probes.get("writer_process_killed", 0) + 1
                     if kind == "fs_errno":
                         probes["fs_errno_fired"] = probes.get("fs_errno_fired", 0) + 1
                         faults[f["errno"]] = faults.get(f["errno"], 0) + 1
